@@ -1729,61 +1729,112 @@ func (e *CoreExtension) filterMerge(value interface{}, args ...interface{}) (int
 	// Handle merging arrays/slices
 	rv := reflect.ValueOf(value)
 	if rv.Kind() == reflect.Slice || rv.Kind() == reflect.Array {
-		result := reflect.MakeSlice(rv.Type(), rv.Len(), rv.Len())
+		// Keep the slice type only if every merged element fits into it
+		if rv.Kind() == reflect.Slice && sequencesFit(rv.Type().Elem(), args) {
+			result := reflect.MakeSlice(rv.Type(), 0, rv.Len())
+			result = reflect.AppendSlice(result, rv)
 
-		// Copy original values
-		for i := 0; i < rv.Len(); i++ {
-			result.Index(i).Set(rv.Index(i))
+			for _, arg := range args {
+				argRv := reflect.ValueOf(arg)
+				if argRv.Kind() == reflect.Slice || argRv.Kind() == reflect.Array {
+					for i := 0; i < argRv.Len(); i++ {
+						if item := argRv.Index(i); item.Type().AssignableTo(rv.Type().Elem()) {
+							result = reflect.Append(result, item)
+						}
+					}
+				}
+			}
+
+			return result.Interface(), nil
 		}
 
-		// Add values from the arguments
+		// Otherwise merge into a generic list
+		result := make([]interface{}, 0, rv.Len())
+		for i := 0; i < rv.Len(); i++ {
+			result = append(result, rv.Index(i).Interface())
+		}
 		for _, arg := range args {
 			argRv := reflect.ValueOf(arg)
 			if argRv.Kind() == reflect.Slice || argRv.Kind() == reflect.Array {
-				// Create a new slice with expanded capacity
-				newResult := reflect.MakeSlice(rv.Type(), result.Len()+argRv.Len(), result.Len()+argRv.Len())
-
-				// Copy existing values
-				for i := 0; i < result.Len(); i++ {
-					newResult.Index(i).Set(result.Index(i))
-				}
-
-				// Append the new values
 				for i := 0; i < argRv.Len(); i++ {
-					newResult.Index(result.Len() + i).Set(argRv.Index(i))
+					result = append(result, argRv.Index(i).Interface())
 				}
-
-				result = newResult
 			}
 		}
 
-		return result.Interface(), nil
+		return result, nil
 	}
 
 	// Handle merging maps
 	if rv.Kind() == reflect.Map {
-		// Create a new map with the same key and value types
-		resultMap := reflect.MakeMap(rv.Type())
+		// Keep the map type only if every merged entry fits into it
+		if mapsFit(rv.Type(), args) {
+			resultMap := reflect.MakeMap(rv.Type())
 
-		// Copy original values
-		for _, key := range rv.MapKeys() {
-			resultMap.SetMapIndex(key, rv.MapIndex(key))
+			// Copy original values
+			for _, key := range rv.MapKeys() {
+				resultMap.SetMapIndex(key, rv.MapIndex(key))
+			}
+
+			// Merge values from the arguments
+			for _, arg := range args {
+				argRv := reflect.ValueOf(arg)
+				if argRv.Kind() == reflect.Map && argRv.Type().Key().AssignableTo(rv.Type().Key()) && argRv.Type().Elem().AssignableTo(rv.Type().Elem()) {
+					for _, key := range argRv.MapKeys() {
+						resultMap.SetMapIndex(key, argRv.MapIndex(key))
+					}
+				}
+			}
+
+			return resultMap.Interface(), nil
 		}
 
-		// Merge values from the arguments
+		// Otherwise merge into a generic map keyed by the string form of the keys
+		result := make(map[string]interface{}, rv.Len())
+		for _, key := range rv.MapKeys() {
+			result[toString(key.Interface())] = rv.MapIndex(key).Interface()
+		}
 		for _, arg := range args {
 			argRv := reflect.ValueOf(arg)
 			if argRv.Kind() == reflect.Map {
 				for _, key := range argRv.MapKeys() {
-					resultMap.SetMapIndex(key, argRv.MapIndex(key))
+					result[toString(key.Interface())] = argRv.MapIndex(key).Interface()
 				}
 			}
 		}
 
-		return resultMap.Interface(), nil
+		return result, nil
 	}
 
 	return value, nil
+}
+
+// sequencesFit reports whether the elements of every list among args can be
+// stored in a slice with the given element type
+func sequencesFit(elemType reflect.Type, args []interface{}) bool {
+	for _, arg := range args {
+		argRv := reflect.ValueOf(arg)
+		if argRv.Kind() == reflect.Slice || argRv.Kind() == reflect.Array {
+			if !argRv.Type().Elem().AssignableTo(elemType) {
+				return false
+			}
+		}
+	}
+	return true
+}
+
+// mapsFit reports whether the entries of every map among args can be stored
+// in a map of the given type
+func mapsFit(mapType reflect.Type, args []interface{}) bool {
+	for _, arg := range args {
+		argRv := reflect.ValueOf(arg)
+		if argRv.Kind() == reflect.Map {
+			if !argRv.Type().Key().AssignableTo(mapType.Key()) || !argRv.Type().Elem().AssignableTo(mapType.Elem()) {
+				return false
+			}
+		}
+	}
+	return true
 }
 
 func (e *CoreExtension) filterReplace(value interface{}, args ...interface{}) (interface{}, error) {
